@@ -13,7 +13,7 @@
    library divides by zero / takes the root of a negative number: NaN). *)
 From mathcomp Require Import all_ssreflect all_algebra.
 From mathcomp Require Import ring.
-Require Import C10.Model C10.ProofsBase C10.ProofsPC C10.ProofsLoop C10.ProofsMain C10.ProofsPrecondMx C10.ProofsPrecond C10.ProofsPSD.
+Require Import C10.Model C10.ProofsBase C10.ProofsPerm C10.ProofsPC C10.ProofsLoop C10.ProofsMain C10.ProofsPrecondMx C10.ProofsPrecond C10.ProofsPSD C10.ProofsExt.
 Set Implicit Arguments.
 Unset Strict Implicit.
 Unset Printing Implicit Defensive.
@@ -248,6 +248,159 @@ Theorem C10_precond_fallback (R : rcfType) ln qr (st : settings R) n Ks Ds :
 Proof. exact: model_precond_fallback. Qed.
 
 (* ========================================================================================== *)
+(* batches whose members need different numbers of bodies (the loop guard is shared) *)
+
+(* a member never gets FEWER columns in a batch than alone ... *)
+Theorem C10_batch_rank_ge_member (R : rcfType) ln (st : settings R) n rank etol (Ks : seq (mat R)) r res K rK resK :
+  pivoted_cholesky (RA ln) st n rank etol Ks = Some (r, res) -> K \in Ks ->
+  pivoted_cholesky (RA ln) st n rank etol [:: K] = Some (rK, resK) -> (rK <= r)%N.
+Proof. exact: batch_rank_ge_member. Qed.
+
+(* ... and what it gets in the batch extends what it gets alone: same first rK columns, same first
+   rK pivots (rK <= r as above) *)
+Theorem C10_batch_extends_member (R : rcfType) ln n max_iter (K : mat R) r rK :
+  symmetric_mat ln K -> (rK <= r)%N -> (r <= n)%N -> (r <= max_iter)%N ->
+  pivots_positive ln n max_iter K r ->
+  (forall l x, (l < rK)%N -> Lcol ln n max_iter K r l x = Lcol ln n max_iter K rK l x) /\
+  take rK (pperm ln n max_iter K r) = take rK (pperm ln n max_iter K rK).
+Proof.
+move=> Hs Hle Hn Hm Hp.
+have [H1 H2] := @run_stable R ln n max_iter K (pc_init (RA ln) n max_iter K).1 Hs rK r Hle Hn Hm Hp.
+by split; [move=> l x Hl; apply: H1 | apply: H2].
+Qed.
+
+(* for PSD members the early-stopping quantity of a member never increases from body to body ... *)
+Theorem C10_error_antimonotone (R : rcfType) ln n max_iter (K : mat R) m' m :
+  symmetric_mat ln K -> psd_mat ln n K -> pivots_positive ln n max_iter K m ->
+  (0 < m')%N -> (m' <= m)%N -> (m < n)%N -> (m <= max_iter)%N ->
+  pcerr (member_run ln n max_iter K m) <= pcerr (member_run ln n max_iter K m').
+Proof. exact: error_antimono. Qed.
+
+(* ... hence the batch runs exactly as many bodies as its slowest member would run alone *)
+Theorem C10_batch_rank_is_max_member_rank (R : rcfType) ln (st : settings R) n rank etol (Ks : seq (mat R)) r res :
+  Ks != [::] ->
+  (forall K, K \in Ks ->
+     [/\ symmetric_mat ln K, psd_mat ln n K & pivots_positive ln n (minn rank n) K r]) ->
+  pivoted_cholesky (RA ln) st n rank etol Ks = Some (r, res) ->
+  exists K rK resK,
+    [/\ K \in Ks, pivoted_cholesky (RA ln) st n rank etol [:: K] = Some (rK, resK) & rK = r].
+Proof. exact: batch_rank_is_max. Qed.
+
+(* ========================================================================================== *)
+(* linear_operator/utils/permutation.py *)
+
+(* inverse_permutation: inv[perm[i]] = i, perm[inv[j]] = j, and inv is again a permutation *)
+Theorem C10_inverse_permutation_correct n (perm : seq nat) :
+  perm_eq perm (iota 0 n) ->
+  [/\ size (inverse_permutation perm) = n,
+      forall i, (i < n)%N -> nth 0%N (inverse_permutation perm) (nth 0%N perm i) = i,
+      forall j, (j < n)%N -> nth 0%N perm (nth 0%N (inverse_permutation perm) j) = j &
+      perm_eq (inverse_permutation perm) (iota 0 n)].
+Proof.
+move=> Hp; have Hperm := perm_eq_is_perm Hp; split.
+- exact: size_inverse_permutation.
+- by move=> i; apply: inverse_permutation_left.
+- by move=> j Hj; have [] := inverse_permutation_right Hperm Hj.
+- exact: is_perm_iota (inverse_permutation_is_perm Hperm).
+Qed.
+
+(* apply_permutation(M, left, right)[i, j] = M[left[i], right[j]] with shape len(left) x len(right);
+   a missing side is the identity; partial permutations (any index lists) allowed *)
+Theorem C10_apply_permutation_correct (R : rcfType) ln nr nc (M : mat R) left right :
+  let l := perm_or_id left nr in
+  let r := perm_or_id right nc in
+  [/\ size (apply_permutation (RA ln) nr nc M left right) = size l,
+      forall i, (i < size l)%N -> size (nth [::] (apply_permutation (RA ln) nr nc M left right) i) = size r &
+      forall i j, (i < size l)%N -> (j < size r)%N ->
+        get (RA ln) (apply_permutation (RA ln) nr nc M left right) i j = get (RA ln) M (nth 0%N l i) (nth 0%N r j)].
+Proof.
+move=> l r; have [H1 H2] := apply_permutation_shape ln nr nc M left right.
+by split => // i j; apply: apply_permutation_get.
+Qed.
+
+(* the factor at the pivots: column l vanishes at the pivots chosen before body l, and the entry of
+   column j at pivot j is the (positive) square root of the pivot value *)
+Theorem C10_factor_triangular_at_pivots (R : rcfType) ln n max_iter (K : mat R) r j :
+  symmetric_mat ln K -> (r <= n)%N -> (r <= max_iter)%N -> pivots_positive ln n max_iter K r ->
+  (j < r)%N ->
+  let p := nth 0%N (pperm ln n max_iter K r) j in
+  [/\ forall l, (j < l < r)%N -> Lcol ln n max_iter K r l p = 0,
+      Lcol ln n max_iter K r j p = Num.sqrt (pc_pivot_value (RA ln) j (member_run ln n max_iter K j)) &
+      0 < Lcol ln n max_iter K r j p].
+Proof.
+move=> Hs Hn Hm Hp Hj p; have [H2 H3] := pivot_rows_diag Hs Hn Hm Hp Hj.
+by split => // l /andP[Hjl Hlr]; apply: pivot_rows_lower.
+Qed.
+
+(* PivotedCholesky.backward recomputes the forward result from Krows = K[perm, perm[:r]]: with
+   Lp[i, l] = L[perm[i], l], the block C = Lp[:r] is lower triangular with positive diagonal and
+   Lp C^T = Krows (so C = cholesky(Krows[:r]) and Lp[r:] = solve_triangular(C, Krows[r:].mT).mT) *)
+Theorem C10_backward_recomputes_forward (R : rcfType) ln n max_iter (K : mat R) r i j :
+  symmetric_mat ln K -> (r <= n)%N -> (r <= max_iter)%N -> pivots_positive ln n max_iter K r ->
+  (i < n)%N -> (j < r)%N ->
+  let perm := pperm ln n max_iter K r in
+  let Lp := fun i l => Lcol ln n max_iter K r l (nth 0%N perm i) in
+  [/\ \sum_(l < r) Lp i l * Lp j l = get (RA ln) (backward_Krows (RA ln) n r K perm) i j,
+      forall l, (j < l < r)%N -> Lp j l = 0 & 0 < Lp j j].
+Proof. by move=> Hs Hn Hm Hp Hi Hj; exact: backward_recomputes_forward. Qed.
+
+(* ... and its last step, apply_permutation(res_pivoted, inverse_permutation(perm), None), puts the
+   rows back into the original order *)
+Theorem C10_backward_unpermute (R : rcfType) ln n m (Lp : mat R) perm (f : nat -> nat -> R) :
+  perm_eq perm (iota 0 n) ->
+  (forall i j, (i < n)%N -> (j < m)%N -> get (RA ln) Lp i j = f (nth 0%N perm i) j) ->
+  forall x j, (x < n)%N -> (j < m)%N -> get (RA ln) (backward_unpermute (RA ln) n m Lp perm) x j = f x j.
+Proof. by move=> Hp; apply: backward_unpermute_get; apply: perm_eq_is_perm. Qed.
+
+(* ========================================================================================== *)
+(* the preconditioner as a whole *)
+
+(* the constant-diagonal test looks at the whole batch: every member's diagonal must be constant
+   (the constants may differ); a constant diagonal is the scalar matrix of the constant branch *)
+Theorem C10_constant_diag_spec (R : rcfType) ln (Ds : seq (seq R)) :
+  (constant_diag (RA ln) Ds <-> forall d, d \in Ds -> forall x, x \in d -> x = vget (RA ln) d 0) /\
+  forall n d, size d = n -> (forall x, x \in d -> x = vget (RA ln) d 0) ->
+    diag_mx (rv_of ln n d) = (vget (RA ln) d 0)%:M.
+Proof.
+split; first by split => [/constant_diagP|H]; [|apply/constant_diagP].
+by move=> n d; apply: const_diag_scalar.
+Qed.
+
+(* a returned preconditioner is built from the pivoted Cholesky factors of rank
+   max_preconditioner_size at the settings' tolerance, one cache per member, branch chosen by the
+   whole-batch test *)
+Theorem C10_precond_uses_pivoted_cholesky (R : rcfType) ln qr (st : settings R) n Ks Ds o :
+  preconditioner (RA ln) qr st n Ks Ds = Some o ->
+  exists r res,
+    [/\ pivoted_cholesky (RA ln) st n (st_max_precond_size st) None Ks = Some (r, res),
+        o_rank o = r, o_L o = map fst res, o_const o = constant_diag (RA ln) Ds &
+        o_cache o = map (fun Ld => if constant_diag (RA ln) Ds then init_cache_const (RA ln) qr n r Ld.1 Ld.2
+                                   else init_cache_nonconst (RA ln) qr n r Ld.1 Ld.2)
+                        (zip (map fst res) Ds)].
+Proof. exact: model_precond_some. Qed.
+
+(* end to end: for member b of K + D the returned closure solves (L_b L_b^T + D_b) X = T, L_b being
+   that member's pivoted Cholesky factor — in whichever branch was taken *)
+Theorem C10_precond_end_to_end (R : rcfType) ln qr (st : settings R) n Ks Ds o b c (T : mat R) :
+  preconditioner (RA ln) qr st n Ks Ds = Some o -> size Ds = size Ks -> (b < size Ks)%N ->
+  let L := nth [::] (o_L o) b in
+  let d := nth [::] Ds b in
+  let ch := nth (MkCache [::] [::] 0) (o_cache o) b in
+  let k := o_rank o in
+  size d = n -> (forall i, (i < n)%N -> 0 < vget (RA ln) d i) -> (0 < n)%N ->
+  qr_spec ln qr (n + k) k (if o_const o then qr_input_const (RA ln) k L d else qr_input_nonconst (RA ln) n k L d) ->
+  (mx_of ln n k L *m (mx_of ln n k L)^T + diag_mx (rv_of ln n d))
+  *m mx_of ln n c (precond_closure (RA ln) (o_const o) n k c ch T) = mx_of ln n c T.
+Proof. exact: model_precond_end_to_end. Qed.
+
+(* _solve_preconditioner hands out the closure of _preconditioner whenever there is one; otherwise
+   None unless the beta feature default_preconditioner is on *)
+Theorem C10_solve_preconditioner_routing (T : Type) (base : option T) beta (dflt : T) :
+  (forall p, base = Some p -> solve_preconditioner base beta dflt = Some p) /\
+  (base = None -> solve_preconditioner base beta dflt = if beta then Some dflt else None).
+Proof. exact: solve_preconditioner_routing. Qed.
+
+(* ========================================================================================== *)
 (* non-vacuity: the hypotheses of the pivoted-Cholesky theorems hold for a concrete matrix with a
    TIED diagonal, over every real closed field: K = [[2,1],[1,2]], n = 2, full rank.
    (second pivot value: 2 - (1/sqrt 2)^2 = 3/2) *)
@@ -269,3 +422,21 @@ rewrite /pc_pivot_value /member_run /= /pc_step /pc_argmax /= /tgt /= ltxx /= /s
 rewrite /scatter /= /vget /get /= /tgt /=.
 by rewrite -expr2 expr_div_n expr1n sqr_sqrtr ?ler0n // subr_gt0 ltr_pdivr_mulr ?ltr0n // -natrM ltr1n.
 Qed.
+
+(* the QR contract is satisfiable: n = k = 1, L = [[0]], sigma = 1: [L; sqrt(sigma) I] = [[0]; [1]] = Q R
+   with Q = [[0]; [1]], R = [[1]] *)
+Example C10_qr_contract_satisfiable (R : rcfType) (ln : R -> R) :
+  let qr := fun (_ _ : nat) (_ : mat R) => ([:: [:: 0]; [:: 1]], [:: [:: 1]]) : mat R * mat R in
+  qr_spec ln qr (1 + 1) 1 (qr_input_const (RA ln) 1 [:: [:: 0]] [:: 1]).
+Proof.
+move=> qr; split.
+- apply/matrixP => i j; rewrite !ord1 !mxE !big_ord_recl big_ord0 !mxE /= /get /=.
+  by rewrite mulr0 mulr1 add0r addr0.
+- apply/matrixP => i j; rewrite !ord1 !mxE !big_ord_recl big_ord0 !mxE /= /get /=.
+  case: i => [[|[|i]] Hi] //=; rewrite ?mul0r ?addr0 //.
+  by rewrite /vget /= sqrtr1 !mulr1.
+- by move=> i j; rewrite !ord1.
+Qed.
+(* a 3-cycle and its inverse *)
+Example C10_permutation_satisfiable : perm_eq [:: 2; 0; 1]%N (iota 0 3) /\ inverse_permutation [:: 2; 0; 1]%N = [:: 1; 2; 0]%N.
+Proof. by []. Qed.
